@@ -184,8 +184,7 @@ func exploreArrival(w *vf.Worker, a arrivalCfg) {
 		return map[string]any{"argv": argv, "header": a.Header, "lines": a.Lines, "schedule": s}
 	}
 	if r.Stalled {
-		w.Violation("stall:"+key, "non-termination in "+key, rp(r.StalledAt))
-		w.Abandon()
+		w.Stalled("stall:"+key, "non-termination in "+key, rp(r.StalledAt))
 	}
 	if !r.Exhaustive {
 		w.Inexhaustive(key + ": execution budget hit")
